@@ -451,6 +451,59 @@ func init() {
 				docs = append(docs, string(mb))
 			}
 		}
+		// structure-aware: every string member of the sample documents replaced by hostile values (numbers
+		// with signs and overflow in length fields, empty, NUL, very long), one member at a time
+		hostileVals := []string{"", "-011", "-9999", "-99999999999999999999", " -42 ", "99999999999999999999", "9999", "\u0000", "*", "{1500}", strings.Repeat("Z", 20000)}
+		for fi, f := range files {
+			if !thorough && fi%4 != 0 {
+				continue
+			}
+			b, err := os.ReadFile(f)
+			if err != nil {
+				continue
+			}
+			var top interface{}
+			if json.Unmarshal(b, &top) != nil {
+				continue
+			}
+			var leaves []jleaf
+			flattenJSON(top, nil, &leaves)
+			for li, lf := range leaves {
+				if lf.kind != "S" {
+					continue
+				}
+				for hi, hv := range hostileVals {
+					if !thorough && (li+hi)%3 != 0 {
+						continue
+					}
+					var doc interface{}
+					json.Unmarshal(b, &doc)
+					setJSONPath(doc, lf.path, hv)
+					if mb, err := json.Marshal(doc); err == nil {
+						docs = append(docs, string(mb))
+					}
+				}
+			}
+			// the same hostile values in combination with another business function / local instrument code
+			for _, combo := range [][2]string{{"CTP", "PROP"}, {"CTP", "ANSI"}, {"BTR", ""}} {
+				for _, hv := range hostileVals {
+					var doc interface{}
+					json.Unmarshal(b, &doc)
+					fw, _ := doc.(map[string]interface{})["fedWireMessage"].(map[string]interface{})
+					if fw == nil {
+						continue
+					}
+					fw["businessFunctionCode"] = map[string]interface{}{"businessFunctionCode": combo[0]}
+					if combo[1] != "" {
+						fw["localInstrument"] = map[string]interface{}{"LocalInstrument": combo[1], "proprietaryCode": "PCODE"}
+					}
+					fw["unstructuredAddenda"] = map[string]interface{}{"addendaLength": hv, "addenda": "some addenda text"}
+					if mb, err := json.Marshal(doc); err == nil {
+						docs = append(docs, string(mb))
+					}
+				}
+			}
+		}
 		for i, d := range docs {
 			res := "same"
 			pn, msg := protect(func() {
@@ -583,4 +636,19 @@ func sortedKeys(m map[string]reflect.Value) []string {
 	}
 	sort.Strings(ks)
 	return ks
+}
+
+// setJSONPath replaces the member addressed by path (object members only) with a string value
+func setJSONPath(doc interface{}, path []string, v string) {
+	cur, ok := doc.(map[string]interface{})
+	for i, k := range path {
+		if !ok {
+			return
+		}
+		if i == len(path)-1 {
+			cur[k] = v
+			return
+		}
+		cur, ok = cur[k].(map[string]interface{})
+	}
 }
